@@ -18,6 +18,9 @@ import (
 	"github.com/contiv/libOpenflow/util"
 )
 
+// canonAll: dump every field as it is (pads and scratch fields too, no normalisation)
+var canonAll bool
+
 func canonHash(v interface{}) string {
 	var b bytes.Buffer
 	canonWrite(&b, reflect.ValueOf(v), 0)
@@ -91,6 +94,12 @@ func canonWrite(b *bytes.Buffer, v reflect.Value, depth int) {
 		for i := 0; i < v.NumField(); i++ {
 			name := t.Field(i).Name
 			ln := strings.ToLower(name)
+			if canonAll {
+				b.WriteString(name + "=")
+				canonWrite(b, v.Field(i), depth+1)
+				b.WriteString(";")
+				continue
+			}
 			if strings.HasPrefix(ln, "pad") || ln == "zero" || ln == "zeros" || ln == "reserved" || ln == "delimiter" {
 				continue
 			}
